@@ -330,6 +330,9 @@ func runWire(c *mon.Case, sp spec) {
 		return
 	}
 	rep := hx.Cat(hx.Be32(id), []byte("R|wire|"))
+	if sp.Empty {
+		rep = hx.Be32(id) // a bare acknowledgement: the reply body is empty
+	}
 	if !peer.reply(c, live, rep) {
 		return
 	}
